@@ -309,7 +309,8 @@ def sc_from_state(st):
     s = st["sc"]
     return {"wk": s["wk"], "lim": s["lim"], "prm": dict(s["prm"]), "W": list(s["W"]),
             "arr": [dict(t=a["t"], h=a["h"], s=a["s"], p=a["p"], f=a["f"]) for a in s["arr"]],
-            "sh": {"t": s["sh"]["t"], "l": s["sh"]["l"]}, "dyn": [dict(d) for d in s["dyn"]], "rt": s["rt"]}
+            "sh": {"t": s["sh"]["t"], "l": s["sh"]["l"]}, "dyn": [dict(d) for d in s["dyn"]], "rt": s["rt"],
+            "endt": s["endt"]}
 
 
 POLICY_KINDS = ("fifo", "lifo", "prio", "deadline", "fair", "wfair")
